@@ -20,7 +20,7 @@ for n in $NAMES; do
     res="$res $c:rc=$rc"
     echo "$out" > $d/last_$c.log
   done
-  git -C /repo checkout -- . 
+  git -C /repo apply -R $HERE/$d/patch.diff || git -C /repo checkout -- .
   caught=$(echo "$res" | grep -q "$prop:rc=1" && echo true || echo false)
   python3 - <<PY
 import json
